@@ -174,6 +174,33 @@ def m_checked(ex, st, callee, args):
     raise Inconclusive(callee)
 
 
+_euclid_re = re.compile(r"^core::num::<impl (%s)>::(checked_)?(rem|div)_euclid$" % INT)
+
+
+def m_euclid(ex, st, callee, args):
+    m = _euclid_re.match(callee)
+    ty, checked, which = m.group(1), bool(m.group(2)), m.group(3)
+    bits, signed = INT_TYPES[ty]
+    a = scalar(ex, st, args[0])
+    b = scalar(ex, st, args[1])
+    zero = b.e == 0
+    bad = zero
+    if signed:
+        bad = z3.Or(zero, z3.And(a.e == z3.BitVecVal(int_min(ty), bits), b.e == z3.BitVecVal(-1, bits)))
+        r = z3.SRem(a.e, b.e)
+        q = a.e / b.e
+        absb = z3.If(b.e < 0, -b.e, b.e)
+        rem = z3.If(r < 0, r + absb, r)
+        div = z3.If(r < 0, z3.If(b.e > 0, q - 1, q + 1), q)
+    else:
+        rem = z3.URem(a.e, b.e)
+        div = z3.UDiv(a.e, b.e)
+    val = Sc(ty, rem if which == "rem" else div)
+    if checked:
+        return [(z3.Not(bad), some(val)), (bad, NONE)]
+    return [(z3.Not(bad), val), (bad, Panic("attempt to %s with overflow or by zero" % which))]
+
+
 _abs_re = re.compile(r"^core::num::<impl (%s)>::(abs|unsigned_abs|signum|is_negative|is_positive)$" % INT)
 
 
@@ -526,6 +553,27 @@ def m_str_eq(ex, st, callee, args):
     return [(None, boolv(r))]
 
 
+def m_map_ctor(ex, st, callee, args):
+    """Option::map / Result::map whose function is an enum-variant constructor (fn item)"""
+    v = ex.deref(st, args[0]) if isinstance(args[0], Ref) else args[0]
+    f = args[1]
+    import sym as _s
+    if isinstance(f, Adt) and f.ty in _s.ENUMS and not f.fields:
+        segs = [f.ty, f.variant]      # a tuple-variant constructor used as a function item
+    elif isinstance(f, Opaque) and f.tag == "const":
+        segs = _s.path_segments(f.data)
+    else:
+        raise Inconclusive("map with a non-constructor function %r" % (f,))
+    if not (len(segs) >= 2 and segs[-2] in _s.ENUMS and segs[-1] in _s.ENUMS[segs[-2]]):
+        raise Inconclusive("map with function %s" % f.data)
+    wrap = lambda x: Adt(segs[-2], segs[-1], [x])
+    if isinstance(v, Adt) and v.ty == "Option":
+        return [(None, some(wrap(v.fields[0])) if v.variant == "Some" else NONE)]
+    if isinstance(v, Adt) and v.ty == "Result":
+        return [(None, ok(wrap(v.fields[0])) if v.variant == "Ok" else v)]
+    raise Inconclusive("map on %r" % (v,))
+
+
 # ------------------------------------------------------------------ Cow
 def m_cow_as_ref(ex, st, callee, args):
     r = args[0]
@@ -555,6 +603,7 @@ def base_models():
     m = Models()
     m.add(r"^<Cow<.*> as (AsRef<.*>|Deref|Borrow<.*>)>::(as_ref|deref|borrow)$", m_cow_as_ref)
     m.add(r"^Cow::<.*>::into_owned$", m_cow_into_owned)
+    m.add(r"^(Option|Result|std::result::Result|std::option::Option)::<.*>::map::<.*, fn\(.*\) -> .* \{.*\}>$", m_map_ctor)
     m.add(r"^Vec::<.*>::pop$", m_vec_pop)
     m.add(r"^Vec::<.*>::push$", m_vec_push)
     m.add(r"^Vec::<.*>::clear$", m_vec_clear)
@@ -580,6 +629,7 @@ def base_models():
     m.add(_cmp_re.pattern, m_cmp)
     m.add(_checked_re.pattern, m_checked)
     m.add(_abs_re.pattern, m_abs)
+    m.add(_euclid_re.pattern, m_euclid)
     m.add(_tryinto_re.pattern, m_tryinto)
     m.add(_from_re.pattern, m_from)
     m.add(_f64_re.pattern, m_f64)
